@@ -102,4 +102,6 @@ Definition eltb (a b : ER) : bool :=
   end.
 Definition eis_nan (a : ER) : bool := match a with NaN => true | _ => false end.
 Definition eis_ninf (a : ER) : bool := match a with NInf => true | _ => false end.
+(* a.GetFloat64() == 0.0 *)
+Definition eis_zero (a : ER) : bool := match a with Fin x => Reqb x 0 | _ => false end.
 Definition efin (a : ER) : option R := match a with Fin x => Some x | _ => None end.
